@@ -55,20 +55,36 @@ def handle (op : String) (req : Json) : R Json := do
     let acc := accepted v entries
     let mech := load isNanV readParams v timegm entries pi
     let spec := specLoad isNanV readParams v entries
-    -- hypotheses of the theorems: distinct keys, every task completes, parsable stamps, one header
+    -- hypotheses of the theorems: distinct keys, every task completes, valid stamps, one header,
+    -- one cell per field in every row, vendor name form
     let injective := pairwiseDistinct (acc.map (fun e => sortKey v timegm e.name))
       && pairwiseDistinct (acc.map (fun e => acqKey v e.name))
     let covers := (List.range acc.length).all (fun i => pi.contains i)
     let stamps := v != .tofwerk || acc.all (fun e => validStampB (stampFields e.name.toList))
+    let nameform := v != .nu || acc.all (fun e => nuFull e.name.toList)
     let hkey := acc.all (fun p => acc.all (fun q =>
       keyLe (sortKey v timegm p.name) (sortKey v timegm q.name) == keyLe (acqKey v p.name) (acqKey v q.name)))
     let header := match acc with
       | [] => true
       | e :: es => es.all (fun x => x.line.names == e.line.names)
+    let rect := acc.all (fun e => e.line.rows.all (fun r => r.length == e.line.names.length))
     pure (jObj [("vendor", jStr (vendorName v)), ("model", jResult mech), ("spec", jResult spec),
                 ("accepted", jList jStr (acc.map (·.name))),
                 ("order", jList jStr ((byRank (fun e => acqKey v e.name) acc).map (·.name))),
-                ("hyp", jBool (injective && covers && stamps && header && hkey))])
+                ("keys_defined", jBool (keysDefined v (acc.map (·.name)))),
+                ("valid_stamps", jBool stamps),
+                ("strict_stamps", jBool (v != .tofwerk || acc.all (fun e => stampStrict e.name.toList))),
+                ("hkey", jBool hkey),
+                ("hyp", jBool (injective && covers && stamps && nameform && header && rect && hkey))])
+  | "c04.sort" =>
+    -- `option.sort(option.filter(paths))` of the four options on a list of names
+    let names ← getList asStr req "names"
+    let one := fun (v : Vendor) =>
+      let acc := names.filter (matchesV v)
+      (vendorName v, jObj [("filter", jList jStr acc),
+        ("sort", if keysDefined v acc then jList jStr (sortBy (fun n => sortKey v timegm n) acc)
+                 else jObj [("raises", jStr "ValueError")])])
+    pure (jObj [("model", jObj [one .nu, one .ldr, one .tofwerk, one .generic])])
   | "c04.names" =>
     let names ← getList asStr req "names"
     pure (jObj [("model", jList (fun (n : String) =>
@@ -82,7 +98,14 @@ def handle (op : String) (req : Json) : R Json := do
             ("hidden", jBool (hidden n)),
             ("stem", jChars (stem s)),
             ("numkey", jInt (stemDigitsKey s)),
+            ("nufull", jBool (nuFull s)),
+            ("ldrparts", jOpt (fun (g : List Char × List Char) =>
+                jObj [("sample", jChars (lower g.1)), ("index", jNat (digitsNat g.2))]) (ldrParts s)),
+            ("ldrkey", jList jInt (ldrKey s)),
             ("stamp", jList jNat (stampFields s)),
+            ("strptime_ok", jBool (strptimeOk (stampFields s))),
+            ("valid_stamp", jBool (validStampB (stampFields s))),
+            ("strict_stamp", jBool (stampStrict s)),
             ("timegm", jInt (timegm (stampFields s)))]) names)])
   | _ => throw s!"unknown op {op}"
 
